@@ -240,8 +240,10 @@ class PUBO(BO, PUBOMatrix):
                     pair = key[i], key[j]
                     pair_frequencies[pair] += 1
 
-        # next available label
-        ancilla = self.num_binary_variables
+        # next available label. It must be above every label in the mapping;
+        # PUSO._create_pubo gives this object the mapping of a model that may
+        # report more variables than this object itself has.
+        ancilla = max(self.num_binary_variables, len(self._mapping))
 
         # do the reductions
         reductions = {}
